@@ -221,3 +221,40 @@ Theorem C18_suffix_tables :
   suffix_items = map (spec_suffix SItems) [0; 1; 2; 3; 4; 5].
 Proof. repeat split; reflexivity. Qed.
 Print Assumptions C18_suffix_tables.
+
+(** * Glue for C05's printing clause *)
+
+(** Finite non-negative values never print "NaN" or "inf": for every finite
+    value [a/b] (b <> 0), every [sig], every suffix family and both byte
+    formats, [format_f64] prints a numeral and [fmt_scaled] (so [format_bytes]
+    and the finite throughputs) prints [numeral ++ " " ++ suffix] where the
+    numeral consists of digits and at most one '.' ([numeral_chars]) and the
+    whole string contains neither "NaN" nor "inf"; likewise [fmt_duration p]
+    for every [p]. *)
+Theorem C18_finite_prints_no_nan :
+  (forall sig a b, b <> 0 -> sig + 1 < 2 ^ 64 ->
+     exists num, format_f64 sig (VQ a b) = Ok num /\ numeral_chars num /\
+       ~ contains nan_str num /\ ~ contains inf_str num) /\
+  (forall f sig a b, b <> 0 -> sig + 1 < 2 ^ 64 ->
+     exists num i, i <= 5 /\
+       fmt_scaled f sig (VQ a b) = Ok (num ++ [ch_space] ++ spec_suffix f i) /\
+       numeral_chars num /\
+       ~ contains nan_str (num ++ [ch_space] ++ spec_suffix f i) /\
+       ~ contains inf_str (num ++ [ch_space] ++ spec_suffix f i)) /\
+  (forall p,
+     exists num suffix,
+       fmt_duration p = FOk (num ++ [ch_space] ++ suffix) /\
+       numeral_chars num /\ In suffix (map snd spec_units) /\
+       ~ contains nan_str (num ++ [ch_space] ++ suffix) /\
+       ~ contains inf_str (num ++ [ch_space] ++ suffix)).
+Proof. exact (conj format_f64_prints_no_nan (conj fmt_scaled_prints_no_nan duration_prints_no_nan)). Qed.
+Print Assumptions C18_finite_prints_no_nan.
+
+(** The throughput starts with "inf" iff the count is non-zero and the
+    duration zero, and never contains "NaN", for the four counter kinds. *)
+Theorem C18_inf_iff_zero_duration : forall kind count picos binary, kind <= 3 ->
+  exists s, display_throughput kind count picos binary = Ok s /\
+    (starts_with inf_str s <-> count <> 0 /\ picos = 0) /\
+    ~ contains nan_str s.
+Proof. exact throughput_inf_iff. Qed.
+Print Assumptions C18_inf_iff_zero_duration.
